@@ -27,6 +27,11 @@ def deco(n):
         c.decorated = getattr(c, 'decorated', []) + [n]
         return c
     return w
+def deco_new(n):
+    'a decorator that returns a new class'
+    def w(c):
+        return type(c.__name__, (c,), {'decorated_new': n})
+    return w
 def hookd(f):
     def w(cls, *a, **kw):
         cls.hooked = getattr(cls, 'hooked', 0) + 1
@@ -57,6 +62,8 @@ MEMBERS = {
     "dunder-call": ["def __call__(self, a):", "    return a + 1", "def __repr__(self):", "    return 'K()'"],
     "class-var-in-method-default": ["d = 4", "def md(self, a=d):", "    return a"],
     "lambda-member": ["lam = lambda self, q=2: q * 3"],
+    "self-ref": ["def me(self):", "    return (K.__name__, getattr(K, 'decorated_new', None), getattr(K, 'decorated', None))"],
+    "lambda-default-same-name": ["sep = '-'", "width = 3", "lam2 = lambda self, sep=sep, *, width=width + 1: (sep, width)"],
     "comprehension-member": ["sq = [n * n for n in range(3)]"],
 }
 
@@ -73,6 +80,8 @@ def class_source(bases, meta, kws, ndeco, members):
         if bases != "none":
             head_args.append("tag='T'")
     L = [f"@deco({i})" for i in range(ndeco)]
+    if ndeco == 2:
+        L[1] = "@deco_new(1)"          # the inner decorator replaces the class, the outer one marks the replacement
     L.append("class K" + (f"({', '.join(head_args)})" if head_args else "") + ":")
     body = []
     for m in members:
@@ -99,13 +108,13 @@ def show(c):
     return sorted(d.items())
 def probe(c):
     out = [('vars', show(c)), ('mro', [x.__name__ for x in c.__mro__]), ('type', type(c).__name__), ('name', c.__name__)]
-    for attr in ('tag', 'meta_kw', 'decorated', 'extra', 'hooked'):
+    for attr in ('tag', 'meta_kw', 'decorated', 'decorated_new', 'extra', 'hooked'):
         if hasattr(c, attr): out.append((attr, repr(getattr(c, attr))))
     try:
         o = c()
     except Exception as e:
         out.append(('construct', type(e).__name__)); return out
-    for call in ('o.m(1)', 'o.m(1, b=5)', 'c.s(4)', 'o.s(4)', 'c.c(3)', 'o.c(3)', 'o.p', 'o.who()', 'o.v', 'o(1)', 'repr(o)', 'o.md()', 'o.lam()', 'c.Inner().im()', 'c.Inner.z', 'c[int].__class__.__name__', "c['k']", 'o.made'):
+    for call in ('o.m(1)', 'o.m(1, b=5)', 'c.s(4)', 'o.s(4)', 'c.c(3)', 'o.c(3)', 'o.p', 'o.who()', 'o.v', 'o(1)', 'repr(o)', 'o.md()', 'o.lam()', 'o.lam2()', 'o.me()', 'c.Inner().im()', 'c.Inner.z', 'c[int].__class__.__name__', "c['k']", 'o.made'):
         try:
             out.append((call, repr(eval(call, {'o': o, 'c': c}))))
         except AttributeError:
